@@ -1,5 +1,6 @@
 import UpfVerif.Model.Xlate
 import UpfVerif.Spec.Rules
+import UpfVerif.Spec.Arrange
 import UpfVerif.Lemmas.Xlate
 /-
 C02 — PDR and FAR reach the kernel exactly as the SMF specified them.
@@ -12,7 +13,7 @@ request's own (SEID, id); SDF filters with source and destination exchanged iff 
 is a corollary.  `…_bytes`: the same holds for what the reader recovers from the request *bytes*.
 -/
 namespace UpfVerif.C02
-open UpfVerif.Netlink UpfVerif.Gtp5gRead UpfVerif.Rules UpfVerif.Xlate UpfVerif.XlateL UpfVerif.FlowDesc
+open UpfVerif.Netlink UpfVerif.Gtp5gRead UpfVerif.Rules UpfVerif.Xlate UpfVerif.XlateL UpfVerif.FlowDesc UpfVerif.Arrange
 open UpfVerif.Gen
 
 /-! ### the constants of the pinned go-gtp5gnl (regenerated each run) are the gtp5g attribute numbers -/
@@ -41,34 +42,9 @@ theorem consts_far :
 
 /-! ### arrangements: a child list that carries the content `p`, in any order -/
 
-def PdiChild.srcif? : PdiChild → Option Nat | .srcif v => some v | _ => none
-def PdiChild.fteid? : PdiChild → Option (Nat × Bytes) | .fteid t ip => some (t, ip) | _ => none
-def PdiChild.ueip? : PdiChild → Option Bytes | .ueip ip => some ip | _ => none
-def PdiChild.sdf? : PdiChild → Option (Str × Option Nat) | .sdf fd bid => some (fd, bid) | _ => none
 
-structure ArrangesPdi (cs : List PdiChild) (q : PdiSpec) : Prop where
-  srcif : cs.filterMap PdiChild.srcif? = q.srcIf.toList
-  fteid : cs.filterMap PdiChild.fteid? = q.fteid.toList
-  ueip : cs.filterMap PdiChild.ueip? = q.ueip.toList
-  sdfs : cs.filterMap PdiChild.sdf? = q.sdfs
 
-def PdrChild.pdrid? : PdrChild → Option Nat | .pdrid v => some v | _ => none
-def PdrChild.prec? : PdrChild → Option Nat | .prec v => some v | _ => none
-def PdrChild.ohr? : PdrChild → Option Nat | .ohr v => some v | _ => none
-def PdrChild.farid? : PdrChild → Option Nat | .farid v => some v | _ => none
-def PdrChild.qerid? : PdrChild → Option Nat | .qerid v => some v | _ => none
-def PdrChild.urrid? : PdrChild → Option Nat | .urrid v => some v | _ => none
-def PdrChild.pdi? : PdrChild → Option (List PdiChild) | .pdi cs => some cs | _ => none
 
-structure ArrangesPdr (cs : List PdrChild) (p : PdrSpec) : Prop where
-  id : cs.filterMap PdrChild.pdrid? = [p.id]
-  prec : cs.filterMap PdrChild.prec? = p.prec.toList
-  ohr : cs.filterMap PdrChild.ohr? = p.ohr.toList
-  farid : cs.filterMap PdrChild.farid? = p.farId.toList
-  qerids : cs.filterMap PdrChild.qerid? = p.qerIds
-  urrids : cs.filterMap PdrChild.urrid? = p.urrIds
-  pdi : ∃ pss, cs.filterMap PdrChild.pdi? = pss ∧ pss.length = p.pdi.toList.length ∧
-        ∀ ps ∈ pss, ∀ q, p.pdi = some q → ArrangesPdi ps q
 
 /-! ### PDI -/
 
@@ -497,26 +473,9 @@ theorem updatePDR_bytes (link seid : Nat) (cs : List PdrChild) (p : PdrSpec) (h 
 
 /-! ### FAR -/
 
-def FpChild.ohc? : FpChild → Option OhcSpec | .ohc d t ip p => some ⟨d, t, ip, p⟩ | _ => none
-def FpChild.fpol? : FpChild → Option Bytes | .fpol s => some s | _ => none
-def FpChild.smreq? : FpChild → Option Nat | .smreq v => some v | _ => none
 
-structure ArrangesFwd (cs : List FpChild) (f : FwdSpec) : Prop where
-  ohc : cs.filterMap FpChild.ohc? = f.ohc.toList
-  fpol : cs.filterMap FpChild.fpol? = f.policy.toList
-  smreq : cs.filterMap FpChild.smreq? = f.smReq.toList
 
-def FarChild.farid? : FarChild → Option Nat | .farid v => some v | _ => none
-def FarChild.aa? : FarChild → Option Bytes | .aa b => some b | _ => none
-def FarChild.fp? : FarChild → Option (List FpChild) | .fp cs => some cs | _ => none
-def FarChild.barid? : FarChild → Option Nat | .barid v => some v | _ => none
 
-structure ArrangesFar (cs : List FarChild) (p : FarSpec) : Prop where
-  id : cs.filterMap FarChild.farid? = [p.id]
-  aa : cs.filterMap FarChild.aa? = p.applyAction.toList
-  barid : cs.filterMap FarChild.barid? = p.barId.toList
-  fp : ∃ fss, cs.filterMap FarChild.fp? = fss ∧ fss.length = p.fwd.toList.length ∧
-        ∀ fs ∈ fss, ∀ f, p.fwd = some f → ArrangesFwd fs f
 
 theorem farId_last (cs : List FarChild) (cur : Nat) :
     farId cs cur = ((cs.filterMap FarChild.farid?).getLast?).getD cur :=
@@ -758,28 +717,21 @@ theorem updateFAR_exact (link seid : Nat) (cs : List FarChild) (p : FarSpec) (h 
     (hl : link < 2 ^ 32) (hs : seid < 2 ^ 64) :
     ∃ gets r, updateFAR link seid cs = (true, gets ++ [r]) ∧ (∀ g ∈ gets, g.cmd = gtp5gnl.CMD_GET_FAR) ∧
       r.cmd = Cmd.addFar ∧ readFar r.attrs = expectFar link seid p := by
-  refine ⟨farGets link seid cs 0, farReq link seid flUpdate cs, ?_, ?_, rfl, readFar_attrs link seid cs p h wf hl hs _⟩
+  refine ⟨farGets link seid cs, farReq link seid flUpdate cs, ?_, ?_, rfl, readFar_attrs link seid cs p h wf hl hs _⟩
   · simp [updateFAR, farErr_false cs p h wf]
-  · have : ∀ (cs : List FarChild) (cur : Nat), ∀ g ∈ farGets link seid cs cur, g.cmd = gtp5gnl.CMD_GET_FAR := by
-      intro cs
-      induction cs with
-      | nil => intro cur g hg; simp [farGets] at hg
-      | cons c cs ih =>
-        intro cur g hg
-        cases c with
-        | aa b =>
-          simp only [farGets] at hg
-          cases hu : Flags.applyUnmarshal b with
-          | none => simp [hu] at hg
-          | some w =>
-            simp [hu] at hg
-            rcases hg with rfl | hg
-            · rfl
-            · exact ih cur g hg
-        | farid v => exact ih v g (by simpa [farGets] using hg)
-        | fp fs => exact ih cur g (by simpa [farGets] using hg)
-        | barid v => exact ih cur g (by simpa [farGets] using hg)
-    exact this cs 0
+  · intro g hg
+    simp only [farGets, List.mem_map] at hg
+    obtain ⟨_, _, rfl⟩ := hg
+    rfl
+
+/-- the look-ups of `applyAction` address the FAR the IE names, wherever the FAR ID child stands -/
+theorem updateFAR_gets_addressed (link seid : Nat) (cs : List FarChild) (p : FarSpec) (h : ArrangesFar cs p) :
+    ∀ g ∈ farGets link seid cs, g = getFAR link seid p.id := by
+  have hid : farId cs 0 = p.id := by rw [farId_last, h.id]; rfl
+  intro g hg
+  simp only [farGets, List.mem_map] at hg
+  obtain ⟨_, _, rfl⟩ := hg
+  rw [hid]
 
 theorem createFAR_order_independent (link seid : Nat) (cs cs' : List FarChild) (p : FarSpec)
     (h : ArrangesFar cs p) (h' : ArrangesFar cs' p) (wf : p.WF) (hl : link < 2 ^ 32) (hs : seid < 2 ^ 64) :
@@ -803,7 +755,7 @@ def exFlow : FlowDesc :=
     sports := [[80]], dports := [] }
 def fdTxt : Str := "permit out 17 from 10.1.2.0/24 80 to assigned".toList
 theorem exFd : parseFlowDesc fdTxt = some exFlow := by decide
-open UpfVerif.Netlink UpfVerif.Gtp5gRead UpfVerif.Rules UpfVerif.Xlate UpfVerif.XlateL UpfVerif.C02
+open UpfVerif.Netlink UpfVerif.Gtp5gRead UpfVerif.Rules UpfVerif.Xlate UpfVerif.XlateL UpfVerif.C02 UpfVerif.Arrange
 def exPdi : PdiSpec := { srcIf := some 0, fteid := some (0x1234, [10#8, 0#8, 0#8, 1#8]), ueip := some [10#8, 60#8, 0#8, 1#8],
                          sdfs := [(fdTxt, some 7)] }
 def exPdr : PdrSpec := { id := 9, prec := some 255, ohr := some 0, farId := some 4000000000, qerIds := [5, 6], urrIds := [], pdi := some exPdi }
